@@ -30,6 +30,8 @@ def kcell(rng, kind):
         return rng.choice(['x', 'y', 'ab', 'b', ''])
     if kind == 'num':
         return rng.choice([0, 1, 1.0, 2.5, 2])
+    if kind == 'npfloat':
+        return rng.choice([{'$np': ['float64', 1.0]}, 1, 1.0, {'$np': ['float64', 2.5]}, 2.5, 2, {'$np': ['float64', 2.0]}])
     if kind == 'bigint':
         return rng.choice([2 ** 53, 2 ** 53 + 1, 2 ** 53 + 2, float(2 ** 53), 5, 1577836800000000000, 1577836800000000001])     # distinct ids / epoch-ns stamps that round to one double
     if kind == 'numnan':
@@ -233,7 +235,7 @@ def gen_case(rng):
     if how == 'pivot':
         nx = rng.choice([1, 1, 2])
         x = rng.choice([['a', 'b'], ['id1', 'tk'], ['ticker', 'p2'], ['data', 'columns'], ['columns', 'key']])[:nx]
-        kinds = [rng.choice(['int', 'str', 'num', 'dt', 'mixed', 'numnan', 'bigint']) for _ in x]
+        kinds = [rng.choice(['int', 'str', 'num', 'dt', 'mixed', 'numnan', 'bigint', 'npfloat']) for _ in x]
         cols = {c: [kcell(rng, k) for _ in range(n)] for c, k in zip(x, kinds)}
         ykind = rng.choice(['str', 'int', 'both', 'str', 'int', 'both', 'other'])
         ypool = {'str': ['p', 'q', 'r'], 'int': [1, 2, 3], 'both': ['p', 'q', 1, 2], 'other': [2.5, 0.5, {'$dt': '2020-01-01T00:00:00'}, {'$dt': '2021-06-30T00:00:00'}, 'p']}[ykind]
@@ -245,7 +247,7 @@ def gen_case(rng):
         agg = rng.choice([None, None, 'first', 'last', 'len', ['last'], ['first']])
         return {'how': 'pivot', 'cols': cols, 'x': x, 'agg': agg, 'xstr': rng.random() < 0.5, 'alias': rng.random() < 0.3}
     names = (['a', 'b', 'c', 'd'] if rng.random() > 0.1 else ['data', 'columns', 'key', 'x'])[:rng.randint(1, 4)]     # also columns called like the library's own parameters
-    kinds = {c: rng.choice(['int', 'str', 'num', 'dt', 'mixed', 'mixed', 'numnan', 'bigint']) for c in names}
+    kinds = {c: rng.choice(['int', 'str', 'num', 'dt', 'mixed', 'mixed', 'numnan', 'bigint', 'npfloat']) for c in names}
     nk = rng.randint(1, len(names))
     keys = rng.sample(names, nk)
     cols = {}
